@@ -53,7 +53,7 @@ SPEC = dict(
     rule='same DAG generators as C04; each DAG x 6 option sets x {bytes, hex, base64} x {Cell, Slice, Builder}.one_from_boc (large DAGs: all option sets through Cell/bytes, one option set '
          'through all forms and entry points); distinct = distinct (dag, root, option set, form, entry); non-trivial = more than one cell or non-empty data',
     trusted_base=['Model/BocForms.lean mirrors the bytes / hex / base64 detection of Boc.__init__ by hand (bocinput correspondence)',
-                  'Model/BocEmit.lean mirrors Cell.order / serialize / to_boc (correspondence in C04)',
+                  'Model/BocEmit.lean: Cell.order / serialize / to_boc proved equal to the functions regenerated from cell.py (c03_src_emitter; trusted: translator pydict.py + interface in bocemit.py + PyDict.lean); Model/BocForms.inputBytes proved equal to the regenerated Boc.__init__ (c03_src_forms; fromhex / b64decode stay hand models)',
                   'Model/BocParse.lean: deserialize_boc_header / deserialize_cell / deserialize are proved equal to the functions regenerated from the source (c03_src_parser; trusted: the translator pyloops.py / pybytes.py and PyBytes.lean); Boc.__init__ by correspondence',
                   'Model/BocEntry.lean mirrors the three one_from_boc class methods, begin_parse and to_builder (bocone correspondence)'],
     assumptions=['bytes.fromhex / base64.b64decode behave as modelled', 'SHA-256 is abstract: theorems hold for every H under the local NoCollision hypothesis on the cells at hand'],
